@@ -494,6 +494,10 @@ def check_invariant(ctx, rep, prog, with_new=True):
         rows = intervals.table_new(prog, env)
         blame_rows(rep, "T-NEW", "range::BoundSet::new", rows, prog, env, 17,
                    "the validating constructor: Some exactly for a non-empty (Lower, Upper) pair, returned unchanged")
+    if not prog.has_body("range::BoundSet::new"):
+        # the rules below are relative to the validating constructor; without it (renamed, moved) nothing is decided
+        rep.inconc("INV-CONSTRUCT / INV-PARSED: the validating constructor range::BoundSet::new was not found")
+        return
     g, problems = gram.extract(prog)
     roots, seen = desugar_bodies(prog, g)
     construct_rule(ctx, rep, prog, seen)
